@@ -29,6 +29,9 @@ func (g *deepcopyGen) GenerateType(c gengo.Context, named *types.Named) error {
 }
 
 func (g *deepcopyGen) generateType(c gengo.Context, named *types.Named) error {
+	// field type could be instantiated generic type, methods should be generated for the declared one, and only once
+	named = named.Origin()
+
 	if _, ok := g.processed[named]; ok {
 		return nil
 	}
